@@ -411,7 +411,34 @@ def r3(F, R):
             sl = A.slice_back(co, [calls[0][1]["args"][1]], stop_calls=[r"Future::poll$"])
             ok = bool(sl.upvars) and not sl.calls
         R.check(ok, f"discard/{adt.rsplit('::', 1)[-1]}-forwards-events", co, "inner.handle_event(event, cli)", f"{adt} does not forward events unchanged exactly once")
-    R.floor(7)
+    # arbitrary writes (`writer.write(val)`: the summary, user output) pass through every wrapper of ONE writer unchanged, exactly once — all
+    # but `discard::Arbitrary`, which is documented to drop them
+    LEAF = {"writer::basic::Basic", "writer::libtest::Libtest", "writer::json::Json", "writer::junit::JUnit", "writer::tee::Tee"}
+    n_w = 0
+    for adt, hb in sorted(roles.trait_impl_methods(F, r"^writer::Arbitrary$", "write"), key=lambda x: x[0]):
+        if adt in LEAF or not adt.startswith("writer::"):
+            continue
+        co = roles.coroutine_of(F, hb)
+        calls = [(s_, t) for s_, t in co.calls(lambda t: (op_fn(t["func"]) or {}).get("trait") == "writer::Arbitrary")]
+        short = adt.replace("writer::", "")
+        if adt == "writer::discard::Arbitrary":
+            R.check(not calls, f"write/{short}-discards", co, "documented: drops arbitrary writes", f"{adt}::write forwards although it is documented to discard")
+            continue
+        n_w += 1
+        ok = len(calls) == 1 and not co.entry_reaches_return(stop=[calls[0][0]])
+        why = f"{len(calls)} forwarding call(s), or a path round it"
+        if ok:
+            sl = A.slice_back(co, [calls[0][1]["args"][1]], stop_calls=[r"Future::poll$"])
+            ok = bool(sl.upvars) and not sl.calls
+            why = "the value handed on is not the received one"
+        if ok:
+            aw = [x for x in A.awaits(co) if x.src_op is not None and calls[0][0] in A.slice_back(co, [x.src_op]).sites]
+            ok = len(aw) == 1 and not co.entry_reaches_return(stop=[aw[0].poll_site])
+            why = "the inner write is not awaited on every path"
+        R.check(ok, f"write/{short}-forwards", co, "inner.write(val).await", f"{adt}::write does not pass the arbitrary write on to the wrapped writer exactly once ({why}): output written through it "
+                f"(the summary, a Tee arm's copy) is lost")
+    R.check(n_w >= 6, "write/forwarders", None, f"{n_w} forwarding wrappers", f"only {n_w} wrappers implementing Arbitrary found")
+    R.floor(14)
 
 
 def r4(F, R):
